@@ -163,7 +163,7 @@ class Net:
         """env.run() with a step cap; returns None or a description of the exception"""
         env = self.env
         signal.signal(signal.SIGVTALRM, _on_budget)
-        signal.setitimer(signal.ITIMER_VIRTUAL, CPU_BUDGET_S)
+        signal.setitimer(signal.ITIMER_VIRTUAL, CPU_BUDGET_S, 5.0)   # periodic: a second spinner (twin instance) must not escape
         try:
             if until is None:
                 mark = None
